@@ -34,6 +34,9 @@ func (vc *VC) call(st *State, fr *Frame, x *ssa.Call, k func(*State, *Frame)) {
 		args = append(args, vc.val(st, fr, a))
 	}
 	if c.IsInvoke() {
+		for _, a := range args {
+			st.escape(a)
+		}
 		recv := vc.val(st, fr, c.Value)
 		vc.check(st, not(eq(app("ityp", recv.S), "0")), "nil", site)
 		vc.invoke(st, fr, x, recv, args, site, cont)
@@ -56,6 +59,9 @@ func (vc *VC) call(st *State, fr *Frame, x *ssa.Call, k func(*State, *Frame)) {
 	}
 	fv := vc.val(st, fr, c.Value)
 	vc.check(st, vc.nonnil(st, fv.S), "nil", site)
+	for _, a := range args {
+		st.escape(a)
+	}
 	vc.dynCall(st, fr, x, fv, args, cont)
 }
 
@@ -77,6 +83,14 @@ func (vc *VC) staticCall(st *State, fr *Frame, callee *ssa.Function, args, bindi
 	if callee.Pkg != nil && inModule(callee.Pkg.Pkg) || callee.Parent() != nil && callee.Parent().Pkg != nil && inModule(callee.Parent().Pkg.Pkg) {
 		if callee.Parent() == nil {
 			key := funcKey(callee)
+			if blk, ok := vc.P.Blocks[key]; ok && blk.Abstract {
+				r := vc.abstractUF(callee, args)
+				if callee.Signature.Results().Len() == 1 {
+					vc.refFacts(st, r, callee.Signature.Results().At(0).Type())
+				}
+				cont(st, fr, r)
+				return
+			}
 			if blk, ok := vc.P.Blocks[key]; ok && !blk.Inline {
 				vc.applyContract(st, fr, blk, callee, args, site, cont)
 				return
@@ -93,10 +107,16 @@ func (vc *VC) staticCall(st *State, fr *Frame, callee *ssa.Function, args, bindi
 			vc.inline(st, fr, callee, args, bindings, cont)
 			return
 		}
+		for _, a := range args {
+			st.escape(a)
+		}
 		vc.unknownCall(st, fr, callee.String(), callee.Signature, site, cont)
 		return
 	}
 	// external
+	for _, a := range args {
+		st.escape(a)
+	}
 	name := callee.String()
 	if callee.Name() == "init" && callee.Signature.Recv() == nil && len(args) == 0 {
 		vc.havocAll(st)
@@ -177,6 +197,15 @@ func (vc *VC) freshResult(st *State, sig *types.Signature) T {
 
 func (vc *VC) havocAll(st *State) {
 	st.keepBase = nil
+	// objects allocated by this function whose address never left it keep
+	// their contents (nobody else can write them)
+	var private []string
+	for _, a := range st.allocs {
+		if !st.escaped[a] {
+			private = append(private, a)
+		}
+	}
+	old := st.heap
 	nh := map[string]string{}
 	for k, v := range st.heap {
 		if vc.heapImm[k] {
@@ -186,6 +215,23 @@ func (vc *VC) havocAll(st *State) {
 	st.heap = nh
 	vc.nfresh++
 	st.baseVer = fmt.Sprintf("h%d", vc.nfresh)
+	if len(private) > 0 {
+		var keys []string
+		for k := range old {
+			if !vc.heapImm[k] {
+				keys = append(keys, k)
+			}
+		}
+		sort.Strings(keys)
+		var conds []string
+		for _, a := range private {
+			conds = append(conds, eq(app("root", "a"), a))
+		}
+		for _, k := range keys {
+			n := vc.heapName(st, k, vc.heapSort[k])
+			vc.assume(st, fmt.Sprintf("(forall ((a Int)) (! (=> %s (= (select %s a) (select %s a))) :pattern ((select %s a))))", or(conds...), n, old[k], n))
+		}
+	}
 	vc.bumpMark(st)
 }
 
@@ -233,6 +279,8 @@ func (vc *VC) dynCall(st *State, fr *Frame, x *ssa.Call, fv T, args []T, cont fu
 	st.callsA = na.S
 	idx := st.callsN
 	st.callsN = app("+", st.callsN, "1")
+	preCall := st.clone()
+	defer func() {}()
 	if keep := vc.keepPrefix(st); keep != "" {
 		// assumption (listed in the evidence): a function value cannot
 		// change the unexported state of this package (it has no access
@@ -257,6 +305,7 @@ func (vc *VC) dynCall(st *State, fr *Frame, x *ssa.Call, fv T, args []T, cont fu
 	} else {
 		vc.havocAll(st)
 	}
+	vc.applyPreserves(st, preCall)
 	r := vc.freshResult(st, sig)
 	if r.Sort == SInt {
 		nr := vc.fresh("callsR", "(Array Int Int)")
@@ -280,6 +329,38 @@ func (vc *VC) dynCall(st *State, fr *Frame, x *ssa.Call, fv T, args []T, cont fu
 		}
 	}
 	cont(st, fr, r)
+}
+
+// applyPreserves: trusted frame assumption of the enclosing contract:
+// the listed locations are not changed by a dynamic call.
+func (vc *VC) applyPreserves(st, pre *State) {
+	b := st.ctx.blk
+	var pres []string
+	for x := b; x != nil; x = x.Parent {
+		pres = append(pres, x.Preserves...)
+	}
+	if len(pres) == 0 {
+		return
+	}
+	tmp := &Block{Modifies: pres, File: b.File, Line: b.Line}
+	env := vc.baseEnv(st.ctx)
+	tg, err := vc.modTargets(tmp, vc.fn.Pkg.Pkg, env, pre)
+	if err != nil {
+		vc.fail(err)
+		return
+	}
+	vc.note("assumed: dynamic calls do not modify " + strings.Join(pres, ", "))
+	for _, t := range tg {
+		if t.all {
+			continue
+		}
+		o := vc.heapName(pre, t.key, vc.heapSort[t.key])
+		n := vc.heapName(st, t.key, vc.heapSort[t.key])
+		if o == n {
+			continue
+		}
+		vc.assume(st, fmt.Sprintf("(forall ((a Int)) (! (=> %s (= (select %s a) (select %s a))) :pattern ((select %s a))))", t.region("a"), n, o, n))
+	}
 }
 
 func (vc *VC) keepPrefix(st *State) string {
@@ -509,6 +590,9 @@ func calleePkg(callee *ssa.Function) *types.Package {
 }
 
 func (vc *VC) applyContract(st *State, fr *Frame, blk *Block, callee *ssa.Function, args []T, site string, cont func(*State, *Frame, T)) {
+	for _, a := range args {
+		st.escape(a)
+	}
 	pkg := calleePkg(callee)
 	env := paramEnv(callee, args)
 	if err := vc.bindLets(blk, pkg, env, st); err != nil {
